@@ -24,6 +24,7 @@ import (
 	"github.com/couchbase/sync_gateway/auth"
 	"github.com/couchbase/sync_gateway/base"
 	kit "github.com/couchbase/sync_gateway/verifkit"
+	vs "github.com/couchbase/sync_gateway/verifstore"
 	"pgregory.net/rapid"
 )
 
@@ -686,6 +687,9 @@ type vfC07World struct {
 	armedKey string
 	armedFns []func() // other clients' writes, one per compare-and-swap window of the next write
 	inInter  bool
+	opCtx     context.Context // context of the operation under test (marked for the fault store); nil = env.Ctx
+	uncertain map[uint64]bool // numbers reserved by an operation that ended in a storage timeout (outcome unknown)
+	test      string
 }
 
 func vfC07PushRev(ctx context.Context, docID, parent string, body Body) string {
@@ -698,7 +702,38 @@ func (w *vfC07World) op(format string, args ...any) {
 	w.ops = append(w.ops, fmt.Sprintf(format, args...))
 }
 func (w *vfC07World) fail(format string, args ...any) {
-	kit.Violation(w.rt, "C07", "Writes", w.render(), format, args...)
+	test := w.test
+	if test == "" {
+		test = "Writes"
+	}
+	kit.Violation(w.rt, "C07", test, w.render(), format, args...)
+}
+
+// ctx is the context of the operation under test; everything the harness does on the side
+// (read-backs, other clients' writes) uses env.Ctx, which the fault store leaves alone.
+func (w *vfC07World) ctx() context.Context {
+	if w.opCtx != nil {
+		return w.opCtx
+	}
+	return w.env.Ctx
+}
+
+func vfC07IsTimeout(err error) bool { return err != nil && base.IsTimeoutError(err) }
+
+// reconcileDoc: after a write whose outcome is unknown (storage timeout) the bucket decides whether
+// it happened. If it did, it counts as a write carrying its sequence (which no other write may get).
+func (w *vfC07World) reconcileDoc(label, docID string) {
+	sd, err := w.env.Coll.GetDocSyncData(w.env.Ctx, docID)
+	if err != nil || sd.Sequence == 0 || sd.Sequence <= w.docSeq["doc:"+docID] {
+		w.classes["timeout-not-applied"]++
+		return
+	}
+	w.classes["timeout-applied"]++
+	w.acknowledge(fmt.Sprintf("%s(%s) [timed out, applied]=%s", label, docID, sd.GetRevTreeID()), "doc:"+docID, sd.Sequence, sd.UnusedSequences)
+	if w.docRev[docID] != "" {
+		w.docRevs[docID] = append(w.docRevs[docID], w.docRev[docID])
+	}
+	w.docRev[docID] = sd.GetRevTreeID()
 }
 
 func (w *vfC07World) acknowledge(what string, key string, seq uint64, unused []uint64) {
@@ -767,18 +802,19 @@ func (w *vfC07World) write(label, docID, parent string, body Body, tombstone boo
 			// a replicated revision (new_edits=false): a child of parent with a client-made revision id;
 			// with conflicts allowed it is accepted as a branch when parent is no longer a leaf
 			rev := vfC07PushRev(w.env.Ctx, docID, parent, body)
+			ctx := w.ctx()
 			history := []string{rev}
 			if parent != "" {
 				history = append(history, parent)
 			}
-			doc, newRev, err = w.env.Coll.PutExistingRevWithBody(w.env.Ctx, docID, body, history, false, ExistingVersionWithUpdateToHLV)
+			doc, newRev, err = w.env.Coll.PutExistingRevWithBody(ctx, docID, body, history, false, ExistingVersionWithUpdateToHLV)
 		} else if tombstone {
-			newRev, doc, err = w.env.Coll.DeleteDoc(w.env.Ctx, docID, DocVersion{RevTreeID: parent})
+			newRev, doc, err = w.env.Coll.DeleteDoc(w.ctx(), docID, DocVersion{RevTreeID: parent})
 		} else {
 			if parent != "" {
 				body[BodyRev] = parent
 			}
-			newRev, doc, err = w.env.Coll.Put(w.env.Ctx, docID, body)
+			newRev, doc, err = w.env.Coll.Put(w.ctx(), docID, body)
 		}
 	})
 	kind := vfC07Classify(err)
@@ -786,8 +822,16 @@ func (w *vfC07World) write(label, docID, parent string, body Body, tombstone boo
 		// the pushed revision was already known (another client pushed the same revision first): a no-op
 		kind = "alreadyknown"
 	}
+	if vfC07IsTimeout(err) {
+		kind = "timeout"
+	} else if vs.IsInjected(err) {
+		kind = "storageerror"
+	}
 	w.op("%s(%s,parent=%s)=%s", label, docID, parent, kind)
 	w.classes["write-"+kind]++
+	if vfC07IsTimeout(err) {
+		w.reconcileDoc(label, docID)
+	}
 	if err != nil || doc == nil {
 		return kind
 	}
@@ -879,6 +923,8 @@ func (w *vfC07World) accountProblem(when string) string {
 		case w.ack[n] != "" && published:
 			return fmt.Sprintf("%s: sequence %d is carried by %s and is also published as unused (unused-sequence documents %s)", when, n, w.ack[n], u)
 		case w.ack[n] != "" || published || w.docUnus[n] != "":
+		case w.uncertain[n]:
+			// reserved by an operation whose storage call timed out: may be stored or absent (the statement's exception)
 		default:
 			return fmt.Sprintf("%s: sequence %d was reserved (counter=%d) but is neither on an acknowledged write, nor in a document's unused sequences, nor in an unused-sequence document %s — the change feed will wait for it", when, n, counter, u)
 		}
@@ -914,10 +960,29 @@ func (w *vfC07World) updatePrincipal(name string, isUser bool, cfg *auth.Princip
 	}
 	before, existed := w.principalSeq(name, isUser)
 	var err error
-	kit.Guard(w.rt, "C07", "Writes", w.render, func() { _, _, err = w.env.DBC.UpdatePrincipal(w.env.Ctx, cfg, isUser, true) })
+	kit.Guard(w.rt, "C07", "Writes", w.render, func() { _, _, err = w.env.DBC.UpdatePrincipal(w.ctx(), cfg, isUser, true) })
 	kind := vfC07Classify(err)
+	if vfC07IsTimeout(err) {
+		kind = "timeout"
+	} else if vs.IsInjected(err) {
+		kind = "storageerror"
+	}
 	w.op("%s=%s", label, kind)
 	w.classes["principal-"+kind]++
+	if vfC07IsTimeout(err) {
+		// outcome unknown: the bucket decides
+		if after, ok := w.principalSeq(name, isUser); ok && after != before && after > w.docSeq[key] {
+			w.classes["timeout-applied"]++
+			w.acknowledge(label+" [timed out, applied]", key, after, nil)
+			if isUser {
+				w.users[name] = true
+			} else {
+				w.roles[name] = "live"
+			}
+		} else {
+			w.classes["timeout-not-applied"]++
+		}
+	}
 	if err != nil {
 		return kind
 	}
@@ -953,12 +1018,11 @@ func TestVerif_C07_Writes(t *testing.T) {
 		allowConflicts := rapid.Bool().Draw(rt, "allowConflicts")
 		defaultColl := rapid.Bool().Draw(rt, "defaultCollection")
 		// ---------------------------------------------------------------------------------------
-		// EXTENSION POINT (fault store): storage errors, CAS-mismatch errors and timeouts at each
-		// storage operation of a write are to be injected here by wrapping the bucket with the
-		// fault store once it exists (DESIGN §3.2). Until then the only interference generated in the
-		// compare-and-swap window is another client's complete write (LeakyBucket UpdateCallback, the
-		// repository's own test double), which yields the retried / conflicted-after-reserve outcomes.
-		// A write that ends in a timeout must be excluded from the accounting below (w.timedOut).
+		// Storage errors, CAS-mismatch errors and timeouts at the storage operations of a write are
+		// injected by TestVerif_C07_WritesFault (fault store, job "writesfault"). This test keeps the
+		// fault-free outcomes; the only interference generated in the compare-and-swap window here is
+		// another client's complete write (LeakyBucket UpdateCallback, the repository's own test
+		// double), which yields the retried / conflicted-after-reserve outcomes.
 		// ---------------------------------------------------------------------------------------
 		env, err := vfOpen(t, vfDBConfig{SyncFn: vfC07SyncFn, DefaultCollection: defaultColl,
 			Mutate:     func(o *DatabaseContextOptions) { o.AllowConflicts = base.Ptr(allowConflicts) },
@@ -1247,4 +1311,267 @@ func TestVerif_C07_KnownFindings(t *testing.T) {
 			_, _, err := env.DBC.UpdatePrincipal(env.Ctx, &auth.PrincipalConfig{Name: base.Ptr("r1"), ExplicitChannels: base.SetOf("x,y")}, false, true)
 			return err
 		})
+}
+
+// ---------------------------------------------------------------------------------------------
+// write level with generated storage outcomes (fault store)
+
+// TestVerif_C07_WritesFault: the same accounting oracle as TestVerif_C07_Writes, with a generated
+// fault plan armed for one operation at a time: at the k-th marked storage operation on the key of
+// the document / principal under test the store fails before applying (generic error), reports a
+// CAS mismatch, times out without applying, or applies and then times out; optionally another
+// client's complete write runs in the same read -> compare-and-swap window. Numbers reserved by an
+// operation in which a storage timeout fired are exempt from "must be accounted" (the statement's
+// exception) but still must not be handed to a second write.
+func TestVerif_C07_WritesFault(t *testing.T) {
+	rec := kit.New("C07", "WritesFault")
+	defer rec.Flush()
+	knownUP := kit.Known("C07", vfC07SigUpdatePrincipal)
+	oldFreq := MaxSequenceIncrFrequency
+	defer func() { MaxSequenceIncrFrequency = oldFreq }()
+	rapid.Check(t, func(rt *rapid.T) {
+		growth := rapid.SampledFrom([]bool{true, false, true}).Draw(rt, "batchGrowth")
+		MaxSequenceIncrFrequency = 0
+		if growth {
+			MaxSequenceIncrFrequency = time.Hour
+		}
+		allowConflicts := rapid.Bool().Draw(rt, "allowConflicts")
+		defaultColl := rapid.Bool().Draw(rt, "defaultCollection")
+		var wb *vs.Bucket
+		env, err := vfOpen(t, vfDBConfig{SyncFn: vfC07SyncFn, DefaultCollection: defaultColl,
+			Mutate:     func(o *DatabaseContextOptions) { o.AllowConflicts = base.Ptr(allowConflicts) },
+			WrapBucket: func(b base.Bucket) base.Bucket { wb = vs.Wrap(b); return wb }})
+		if err != nil {
+			rec.Inconclusive()
+			kit.InconclusiveLine("C07", "open database: %v", err)
+			rt.Skip()
+		}
+		defer env.Close()
+		vfC07ParkTimer(env.DBC.sequences)
+		w := vfC07NewWorld(rt, env)
+		w.test = "WritesFault"
+		w.uncertain = map[uint64]bool{}
+		defer func() {
+			if x := recover(); x != nil {
+				if ie, ok := x.(kit.InconclusiveErr); ok {
+					rec.Inconclusive()
+					kit.InconclusiveLine("C07", "%s", ie.Msg)
+					rt.Skip()
+				}
+				panic(x)
+			}
+		}()
+		w.op("config(batchGrowth=%v,allowConflicts=%v,defaultCollection=%v)", growth, allowConflicts, defaultColl)
+		env.DBC.sequences.releaseUnusedSequences(env.Ctx)
+		w.base, err = base.GetCounter(env.Ctx, env.DBC.MetadataStore, env.DBC.MetadataKeys.SyncSeqKey())
+		if err != nil {
+			panic(kit.InconclusiveErr{Msg: "GetCounter: " + err.Error()})
+		}
+		marked := vs.Mark(env.Ctx)
+		authn := env.DBC.Authenticator(env.Ctx)
+		docIDs := []string{"d1", "d2"}
+
+		// faulted arms a generated plan addressed at the storage operations on key, runs the
+		// operation under test with the marked context and folds what the trace shows into the model.
+		faulted := func(rt *rapid.T, key string, failBeforeOnlyOnReads bool, interloper func()) {
+			var rules []vs.Rule
+			var desc []string
+			for k, n := 0, rapid.IntRange(1, 2).Draw(rt, "faults"); k < n; k++ {
+				r := vs.Rule{Key: key, Nth: rapid.SampledFrom([]int{1, 2, 2, 2, 3, 4, 4, 5}).Draw(rt, "nth")}
+				r.Fault.Action = rapid.SampledFrom([]vs.Action{vs.FailBefore, vs.FailCas, vs.FailCas, vs.TimeoutBefore, vs.TimeoutAfter, vs.Pass}).Draw(rt, "action")
+				if r.Fault.Action == vs.FailBefore && failBeforeOnlyOnReads {
+					// a generic error from a principal's Save is the listed finding; keep generic errors on its reads
+					rec.Excluded(vfC07SigUpdatePrincipal)
+					r.Type = vs.OpGetRaw
+				}
+				hook := ""
+				if interloper != nil && (r.Fault.Action == vs.Pass || rapid.IntRange(0, 2).Draw(rt, "withInterloper") == 0) {
+					r.Fault.Hook = interloper
+					hook = "+other-client-write"
+				}
+				rules = append(rules, r)
+				desc = append(desc, fmt.Sprintf("op#%d%s:%s%s", r.Nth, map[bool]string{true: "(" + string(r.Type) + ")", false: ""}[r.Type != ""], r.Fault.Action, hook))
+			}
+			w.op("arm[%s on %s]", strings.Join(desc, ","), key)
+			wb.Arm(&vs.Plan{Rules: rules})
+			w.opCtx = marked
+		}
+		// settle is called right after the operation under test returned
+		settle := func(lastBefore uint64) {
+			w.opCtx = nil
+			trace := wb.MarkedTrace()
+			wb.Disarm()
+			timeoutFired, anyFault := false, false
+			for _, o := range trace {
+				if o.Hooked {
+					w.classes["fault:other-client-write@"+string(o.Type)]++
+				}
+				if o.Action == vs.Pass || o.Ignored {
+					continue
+				}
+				anyFault = true
+				w.classes["fault:"+o.Action.String()+"@"+string(o.Type)+map[bool]string{true: "/" + o.Via, false: ""}[o.Via != ""]]++
+				if o.Action == vs.TimeoutBefore || o.Action == vs.TimeoutAfter {
+					timeoutFired = true
+				}
+			}
+			lastAfter, _ := env.DBC.sequences.vfC07Window()
+			if anyFault && lastAfter > lastBefore {
+				w.nontriv = true
+				w.classes["faulted-operation-had-reserved-a-sequence"]++
+			}
+			if timeoutFired {
+				for n := lastBefore + 1; n <= lastAfter; n++ {
+					w.uncertain[n] = true
+				}
+			}
+			if !anyFault {
+				w.classes["fault-not-reached"]++
+			}
+		}
+		lastNow := func() uint64 { l, _ := env.DBC.sequences.vfC07Window(); return l }
+
+		docWrite := func(rt *rapid.T) {
+			docID := rapid.SampledFrom(docIDs).Draw(rt, "doc")
+			parent := w.docRev[docID]
+			if parent != "" && len(w.docRevs[docID]) > 0 && rapid.IntRange(0, 5).Draw(rt, "staleParent") == 0 {
+				parent = rapid.SampledFrom(w.docRevs[docID]).Draw(rt, "parent")
+			}
+			tomb := parent != "" && rapid.IntRange(0, 5).Draw(rt, "delete") == 0
+			body := vfC07GenBody(rt, !tomb && rapid.IntRange(0, 7).Draw(rt, "reject") == 0)
+			label := "put"
+			switch {
+			case tomb:
+				label = "delete"
+			case allowConflicts && rapid.Bool().Draw(rt, "asPush"):
+				label = "raced-push"
+			}
+			inner := vfC07GenBody(rt, false)
+			interloper := func() {
+				ctx := w.opCtx
+				w.opCtx = nil
+				w.op("  [another client, inside the window]")
+				w.write("interloper-put", docID, w.docRev[docID], inner, false)
+				w.opCtx = ctx
+			}
+			faulted(rt, docID, false, interloper)
+			before := lastNow()
+			kind := w.write(label, docID, parent, body, tomb)
+			settle(before)
+			if kind == "ok" || kind == "alreadyknown" {
+				return
+			}
+			// whatever the outcome was reported as, a storage timeout may have left the write applied
+			w.reconcileIfApplied(label, docID)
+		}
+		principal := func(rt *rapid.T) {
+			isUser := rapid.Bool().Draw(rt, "isUser")
+			name := rapid.SampledFrom([]string{"r1", "r2"}).Draw(rt, "role")
+			key := authn.DocIDForRole(name)
+			if isUser {
+				name = rapid.SampledFrom([]string{"u1", "u2"}).Draw(rt, "user")
+				key = authn.DocIDForUser(name)
+			}
+			cfg := &auth.PrincipalConfig{Name: base.Ptr(name)}
+			var chans []string
+			for i, n := 0, rapid.IntRange(0, 2).Draw(rt, "nchan"); i < n; i++ {
+				chans = append(chans, rapid.SampledFrom([]string{"A", "B", "C", "D"}).Draw(rt, "chan"))
+			}
+			cfg.ExplicitChannels = base.SetFromArray(chans)
+			if isUser {
+				if !w.users[name] {
+					cfg.Password = base.Ptr("password-" + name)
+				}
+				if rapid.Bool().Draw(rt, "setRoles") {
+					cfg.ExplicitRoleNames = base.SetFromArray([]string{rapid.SampledFrom([]string{"r1", "r2"}).Draw(rt, "adminRole")})
+				}
+			}
+			kind := "role"
+			if isUser {
+				kind = "user"
+			}
+			// another admin updating the same principal inside the window makes the CAS mismatch real
+			other := &auth.PrincipalConfig{Name: base.Ptr(name), ExplicitChannels: base.SetOf(fmt.Sprintf("other%d", len(w.ops)))}
+			if isUser && !w.users[name] {
+				other.Password = base.Ptr("password-" + name)
+			}
+			interloper := func() {
+				ctx := w.opCtx
+				w.opCtx = nil
+				w.op("  [another admin, inside the window]")
+				w.updatePrincipal(name, isUser, other, fmt.Sprintf("interloper-update-%s(%s)", kind, name))
+				w.opCtx = ctx
+			}
+			faulted(rt, key, knownUP, interloper)
+			before := lastNow()
+			w.updatePrincipal(name, isUser, cfg, fmt.Sprintf("update-%s(%s,chans=%s)", kind, name, vfJoin(chans)))
+			settle(before)
+		}
+		deleteRole := func(rt *rapid.T) {
+			name := rapid.SampledFrom([]string{"r1", "r2"}).Draw(rt, "role")
+			purge := rapid.IntRange(0, 3).Draw(rt, "purge") == 0
+			state := w.roles[name]
+			seqBefore, _ := w.principalSeq(name, false)
+			faulted(rt, authn.DocIDForRole(name), false, nil)
+			before := lastNow()
+			var err error
+			kit.Guard(rt, "C07", "WritesFault", w.render, func() { err = env.DBC.DeleteRole(w.ctx(), name, purge) })
+			settle(before)
+			kind := vfC07Classify(err)
+			if vfC07IsTimeout(err) {
+				kind = "timeout"
+			} else if vs.IsInjected(err) {
+				kind = "storageerror"
+			}
+			w.op("delete-role(%s,purge=%v,was=%s)=%s", name, purge, state, kind)
+			w.classes[fmt.Sprintf("delete-role-purge=%v-%s", purge, kind)]++
+			r, _ := authn.GetRoleIncDeleted(name)
+			switch {
+			case r == nil:
+				if state != "" {
+					w.roles[name] = "purged"
+					delete(w.docSeq, "role:"+name)
+				}
+			case r.IsDeleted() && r.Sequence() != seqBefore:
+				// the delete is stored (acknowledged, or applied before a timeout)
+				w.acknowledge(fmt.Sprintf("delete-role(%s)=%s", name, kind), "role:"+name, r.Sequence(), nil)
+				w.roles[name] = "deleted"
+			case err == nil && !purge && state == "live":
+				w.fail("delete-role(%s) succeeded but the stored role is not marked deleted with a new sequence", name)
+			}
+		}
+		plain := func(rt *rapid.T) {
+			// fault-free traffic in between
+			docID := rapid.SampledFrom(docIDs).Draw(rt, "doc")
+			w.write("put", docID, w.docRev[docID], vfC07GenBody(rt, false), false)
+		}
+		rt.Repeat(map[string]func(*rapid.T){
+			"docwrite": docWrite, "docwrite2": docWrite, "docwrite3": docWrite,
+			"principal": principal, "principal2": principal,
+			"deleterole": deleteRole,
+			"plain":      plain,
+			"quiesce": func(rt *rapid.T) {
+				w.op("quiesce")
+				w.account("at quiescence")
+			},
+		})
+		w.op("quiesce")
+		w.account("at the end")
+		for _, k := range vfSortedKeys(w.classes) {
+			rec.Class(k, int64(w.classes[k]))
+		}
+		rec.Case(w.render(), w.nontriv, fmt.Sprintf("batchGrowth=%v", growth), fmt.Sprintf("allowConflicts=%v", allowConflicts), fmt.Sprintf("defaultCollection=%v", defaultColl))
+	})
+}
+
+// reconcileIfApplied: see reconcileDoc; used when the reported outcome was not recognisably a timeout.
+func (w *vfC07World) reconcileIfApplied(label, docID string) {
+	sd, err := w.env.Coll.GetDocSyncData(w.env.Ctx, docID)
+	if err != nil || sd.Sequence == 0 || sd.Sequence <= w.docSeq["doc:"+docID] {
+		return
+	}
+	if !w.uncertain[sd.Sequence] {
+		w.fail("%s(%s) reported a failure (no storage timeout involved) but the bucket holds a new revision %s with sequence %d", label, docID, sd.GetRevTreeID(), sd.Sequence)
+	}
+	w.reconcileDoc(label, docID)
 }
